@@ -33,6 +33,8 @@ RULE = (
     "nothing, rgrid=None (the library's default radial grid) for every element, plus a few centre/rotate forwarding cases; non-trivial = the table has more than one sector. presets-methods: the same enumeration for the other three "
     "angular methods (thorough: all; quick: a seeded sixth of the elements)"
 )
+RULE = RULE + " " + 'structure: 40 % of the cases have descending or rotated (non-ascending) radial node order; NumPy-integer rotation seeds whenever sequences are passed as arrays.'
+
 ASSUMPTIONS = [
     "the shipped angular data files are the definition of 'the unit angular grid of a degree' (their exactness is C02's business)",
     "the request->degree table is the one encoded in the data file names (C12 checks the library's look-up against it)",
